@@ -9,6 +9,7 @@ import StoneVerif.Model.FeCompile
       | `{"k":"union","name":s,"closed":b,"extends":R|null,"fields":[F,..]}`
       | `{"k":"alias","name":s,"ref":R}`
       | `{"k":"route","name":s,"version":int,"arg":R,"result":R,"error":R|null,"deprecated":null|{"by":null|[name,version]}}`
+      | `{"k":"patch","name":s,"struct":b,"closed":b,"fields":[F,..]}`
       | `{"k":"import","target":s}` | `{"k":"annot","name":s}` | `{"k":"annot_type","name":s}`
   `F` = `{"name":s,"ty":R|null,"has_default":b}`
   `R` = `{"ns":s|null,"name":s,"pos":[A,..],"kw":[[key,L],..],"nullable":b}`; `A` = `L` | `{"ref":R}`;
@@ -97,6 +98,12 @@ def declOfJson (j : Json) : Except String Decl := do
         | some _ => throw "bad deprecated"
     pure (.route { name := ← jstr j "name", version := ← jint j "version", arg := ← refOfJson (← jobj j "arg"),
                    result := ← refOfJson (← jobj j "result"), error := ← optRef j "error", deprecated })
+  | "patch" =>
+    let fields ← (← jarr j "fields").toList.mapM fieldOfJson
+    let isStruct ← jbool j "struct"
+    let closed ← jbool j "closed"
+    let kind : TypeKind := if isStruct then .struct else .union closed
+    pure (.patch { name := ← jstr j "name", kind, fields })
   | "import" => pure (.imp (← jstr j "target"))
   | "annot" => pure (.annot (← jstr j "name"))
   | "annot_type" => pure (.annotType (← jstr j "name"))
@@ -196,9 +203,11 @@ def typeWhy (rx : String → Bool) (fs : List File) (ns : String) (d : TypeDecl)
       else if !enumLegal rx fs ns d c then "enumerated-subtypes"
       else "?"
 
-def legalWhy (rx : String → Bool) (fs : List File) : String :=
+def legalWhy (rx : String → Bool) (fs0 : List File) : String :=
+  let fs := mergeFiles fs0
   if !namesLegal fs then "names"
   else if !importsLegal fs then "imports"
+  else if !patchesLegal fs0 then "patches"
   else match (allPairs fs).find? (fun p => !declLegal rx fs p.1 p.2) with
     | some (ns, .type d) => "type." ++ typeWhy rx fs ns d
     | some (_, .alias _ _) => "alias"
